@@ -411,6 +411,33 @@ func c03Family(quick bool) []*gen.Grammar {
 			}
 		}
 	}
+	// two different tokens under sugar in one grammar, referenced by name and by literal alias
+	for _, s1 := range sugars {
+		for _, s2 := range sugars {
+			if quick && (s1+s2)%3 != 0 {
+				continue
+			}
+			for _, alias := range []bool{false, true} {
+				g := &gen.Grammar{Toks: c03Toks, AliasRefs: alias}
+				g.Rules = []gen.Rule{{Name: "s", Alts: []gen.Alt{
+					{Terms: []gen.Term{{X: tk(5)}, mkTerm(s1, tk(0)), {X: tk(2)}, mkTerm(s2, tk(1))}},
+					{Terms: []gen.Term{{X: tk(3)}, mkTerm(s2, tk(1)), {X: nt(1)}}},
+				}}, elemRule}
+				out = append(out, g)
+			}
+		}
+	}
+	// every grammar built so far also with tokens referenced by literal alias (thorough)
+	if !quick {
+		n := len(out)
+		for i := 0; i < n; i++ {
+			if !out[i].AliasRefs {
+				c := out[i].Clone()
+				c.AliasRefs = true
+				out = append(out, c)
+			}
+		}
+	}
 	// two sugared terms in one alternative, and a sugared rule shared by two alternatives
 	for _, s1 := range sugars {
 		for _, s2 := range []int{gen.Opt, gen.Plus, gen.List} {
